@@ -129,10 +129,17 @@ class Analysis:
     def _simples(self, states, stmt):
         return set(itertools.chain.from_iterable(self.simple(st, stmt) for st in states))
 
+    def exc_state(self, state, node):
+        """State carried by an exception raised while evaluating `node` (default: the pre-state)."""
+        return state
+
     def _exc_of(self, node, states, out: Out) -> None:
         for st in states:
-            for tag in self.raises(node, st):
-                out.exc.add((st, tag, node))
+            tags = self.raises(node, st)
+            if tags:
+                es = self.exc_state(st, node)
+                for tag in tags:
+                    out.exc.add((es, tag, node))
 
     def _guard(self, out: Out) -> None:
         if out.size() > STATE_CAP:
